@@ -166,7 +166,7 @@ def gen_history(rng, nops, files=(1,), backend="BE", big=False, wide=False, path
         elif r < 0.45 and data_nodes:
             u = rng.choice(data_nodes); n = m.nodes[u]
             sel = rand_sel(rng, n["dims"]); cnt = sel_count(sel)
-            if cnt > 20000:
+            if cnt > 1500:
                 sel = [(1, min(d, 5), 1) for d in n["dims"]]; cnt = sel_count(sel)
             md, ms = mem_for(rng, cnt)
             lines.append("wsel %d %d %s %s %s %s" % (f, u, sel_str(sel), ",".join(map(str, md)), sel_str(ms),
@@ -182,7 +182,7 @@ def gen_history(rng, nops, files=(1,), backend="BE", big=False, wide=False, path
         elif r < 0.64 and written:
             u = rng.choice(written); n = m.nodes[u]
             sel = rand_sel(rng, n["dims"]); cnt = sel_count(sel)
-            if cnt > 20000:
+            if cnt > 1500:
                 sel = [(1, min(d, 5), 1) for d in n["dims"]]; cnt = sel_count(sel)
             md, ms = mem_for(rng, cnt)
             lines.append("rsel %d %d %s %s %s %s" % (f, u, sel_str(sel), ",".join(map(str, md)), sel_str(ms),
